@@ -164,8 +164,20 @@ namespace vc
     }
 
     // ---- the joint test type -------------------------------------------------------------------------
+    // the joint test type over the noexcept element is over-aligned (16) although its base class joint_type<T> and all
+    // its members need 8 only: block allocation and release have to use alignof(T), not that of the base
+    // (an empty base for the other element types: their layout stays as it was)
     template <class E>
-    struct JT : fm::joint_type<JT<E>>
+    struct jt_pad
+    {
+    };
+    template <std::size_t S, std::size_t A>
+    struct jt_pad<Elem<S, A, true>>
+    {
+        alignas(16) unsigned char over_ = 0;
+    };
+    template <class E>
+    struct JT : fm::joint_type<JT<E>>, jt_pad<E>
     {
         using vec = fm::vector<E, fm::joint_allocator>;
         JReg               reg;
